@@ -488,10 +488,52 @@ def haar_cases(rng, tier):
     return cs
 
 
+def haarnd_cases(rng, tier):
+    """Haar / pywt_periodic over a SUBSET of the axes of an N-d space with anisotropic cell sides."""
+    import odl
+    cs = C.CaseSet('haarnd', ['C18.ModelH', 'C18.Corr'], 'check_haarnd', 'case_haarnd')
+    todo = []
+    for nd in (1, 2, 3):
+        for k in range(1, nd + 1):
+            for axes in itertools.permutations(range(nd), k):
+                for L in (1, 2):
+                    todo.append((nd, list(axes), L))
+    if tier != 'quick':
+        todo = todo * 3
+    for nd, axes, L in todo:
+        shape = [2 ** L * rng.randint(1, 2) if i in axes else rng.randint(1, 3) for i in range(nd)]
+        if rng.random() < 0.15:                      # an odd level length somewhere (values still correspond)
+            shape[axes[0]] += 1
+        sides = [rng.choice([0.5, 2.0, 0.25, 1.0, 4.0]) for _ in shape]
+        sp = odl.uniform_discr([0.0] * nd, [n * s for n, s in zip(shape, sides)], shape)
+        with warnings.catch_warnings():
+            warnings.simplefilter('ignore')
+            W = odl.trafos.WaveletTransform(sp, 'haar', nlevels=L, pad_mode='pywt_periodic', axes=axes)
+            x = _rand_arr(rng, shape, False)
+            xs = [_rand_arr(rng, shape, False) for _ in range(2)]
+            c = _rand_arr(rng, [W.range.size], False)
+            even = all(shape[a] % (2 ** L) == 0 for a in axes)
+            fwd = np.asarray(W(x)).ravel()
+            adj = np.asarray(W.adjoint(c)).ravel()
+            inv = np.asarray(W.inverse(c)).ravel()
+            iadj = np.asarray(W.inverse.adjoint(x)).ravel()
+        if not even:
+            continue
+        term = ('{| n_L := %s%%nat; n_shape := %s; n_axes := %s; n_sides := %s; n_x := %s; n_fwd := %s; '
+                'n_xs := %s; n_c := %s; n_adj := %s; n_inv := %s; n_iadj := %s |}'
+                % (C.nat(L), nats(shape), nats(axes), C.qs(sides), C.qs(x.ravel().tolist()), C.qs(fwd.tolist()),
+                   C.qss([v.ravel().tolist() for v in xs]), C.qs(c.tolist()), C.qs(adj.tolist()),
+                   C.qs(inv.tolist()), C.qs(iadj.tolist())))
+        cs.add(term, {'shape': shape, 'axes': axes, 'nlevels': L, 'cell_sides': sides,
+                      'x': x.ravel().tolist(), 'c': c.tolist()},
+               (tuple(shape), tuple(axes), L, tuple(sides), str(x.ravel().tolist()), str(c.tolist())))
+    return cs
+
+
 def correspondence(rng, tier):
     C.setup_impl_path()
     return [rg_cases(rng, tier), fac_cases(rng, tier), cis_cases(rng, tier), dft_cases(rng, tier), ft_cases(rng, tier)] \
-        + wavelet_cases(rng, tier) + [haar_cases(rng, tier)]
+        + wavelet_cases(rng, tier) + [haar_cases(rng, tier), haarnd_cases(rng, tier)]
 
 
 LEVEL_TEXT = ('Partial proof. Proved in Coq for ALL sizes/shapes/axes lists/shift patterns/signs: reciprocal_grid has '
@@ -907,10 +949,78 @@ def grid_probes(rng, tier, out):
                'halfcomplex=%s' % (shape, axes, shifts, hc), snippet)
 
 
+_ADJ = ("def adj_defect(op, a, b):\n"
+        "    # |<op a, b>_ran - <a, op^* b>_dom| relative, plus the same for op^* and (op^*)^* == op\n"
+        "    A = op.adjoint\n"
+        "    l1 = op(a).inner(b); r1 = a.inner(A(b))\n"
+        "    l2 = A(b).inner(a); r2 = b.inner(A.adjoint(a))\n"
+        "    sc = 1 + abs(l1)\n"
+        "    return max(abs(l1 - r1), abs(l2 - r2)) / sc\n")
+
+
+def wavelet_axes_adjoint_probes(rng, tier, out):
+    """Adjoint identity in the WEIGHTED inner products for transforms over a subset of the axes of
+    spaces with different, non-unit cell sides per axis; both operator classes, their adjoints'
+    adjoints; every orthogonal wavelet of the sweep."""
+    import pywt
+    names = pywt.wavelist(kind='discrete')
+    orth = [n for n in names if pywt.Wavelet(n).orthogonal and n != 'dmey']
+    sel = orth if tier != 'quick' else (['haar', 'db2', 'db3', 'sym4', 'coif1'] + rng.sample(orth, 8))
+    for name in sel:
+        for nd in (2, 3):
+            for _ in range(1 if tier == 'quick' else 2):
+                L = rng.randint(1, 2)
+                k = rng.randint(1, nd - 1)                       # proper subset
+                axes = rng.sample(range(nd), k)
+                if rng.random() < 0.5:
+                    axes.sort()
+                ax_arg = axes
+                if k == 1 and rng.random() < 0.5:
+                    ax_arg = axes[0] - nd if rng.random() < 0.5 else axes[0]      # scalar / negative axis
+                shape = [2 ** L * rng.randint(1, 3) if i in axes else rng.randint(2, 5) for i in range(nd)]
+                sides = [rng.choice([0.5, 2.0, 0.25, 3.0, 1.5]) for _ in shape]
+                for cls in ('W', 'W.inverse', 'W.adjoint', 'W.inverse.adjoint'):
+                    snippet = (_PRE + _ADJ + "sp = odl.uniform_discr(%r, %r, %r)\n"
+                               "W = odl.trafos.WaveletTransform(sp, %r, nlevels=%d, pad_mode='pywt_periodic', axes=%r)\n"
+                               "op = %s\nrs = np.random.RandomState(%d)\n"
+                               "a = op.domain.element(rs.randint(-4, 5, op.domain.shape).astype(float))\n"
+                               "b = op.range.element(rs.randint(-4, 5, op.range.shape).astype(float))\n"
+                               "observed = float(adj_defect(op, a, b)); expected = 0.0\nok = observed <= 1e-10\n"
+                               % ([0.0] * nd, [n * s for n, s in zip(shape, sides)], shape, name, L, ax_arg, cls,
+                                  rng.randint(0, 10 ** 6)))
+                    _probe(out, 'wavelet-adjoint-axes-subset-%s' % cls,
+                           '<op a,b> == <a,op.adjoint b> (weighted), op = %s of WaveletTransform(%s, nlevels=%d, '
+                           'pywt_periodic, axes=%r) on shape %s with cell sides %s' % (cls, name, L, ax_arg, shape, sides),
+                           snippet)
+
+
+def fourier_adjoint_probes(rng, tier, out):
+    """`adjoint` of the Fourier operators against the inner products of their spaces (not claimed by
+    the property text; reported as findings)."""
+    for cls in ('FourierTransform', 'DiscreteFourierTransform'):
+        for shape, axes in [([4], [0]), ([4, 5], [0, 1]), ([4, 5], [1]), ([3, 4, 5], [0, 2]), ([3, 4, 5], [1])]:
+            nd = len(shape)
+            sides = [rng.choice([0.5, 2.0, 0.25, 1.0]) for _ in shape]
+            for impl in ('numpy', 'pyfftw'):
+                snippet = (_PRE + _ADJ + "sp = odl.uniform_discr(%r, %r, %r, dtype=complex)\n"
+                           "op = odl.trafos.%s(sp, axes=%r, impl=%r)\nrs = np.random.RandomState(%d)\n"
+                           "a = op.domain.element(rs.randint(-4, 5, op.domain.shape) + 1j * rs.randint(-4, 5, op.domain.shape))\n"
+                           "b = op.range.element(rs.randint(-4, 5, op.range.shape) + 1j * rs.randint(-4, 5, op.range.shape))\n"
+                           "observed = float(adj_defect(op, a, b)); expected = 0.0\nok = observed <= 1e-9\n"
+                           % ([0.0] * nd, [n * s for n, s in zip(shape, sides)], shape, cls, axes, impl,
+                              rng.randint(0, 10 ** 6)))
+                _probe(out, 'dft-adjoint-is-unscaled-inverse' if cls.startswith('Discrete')
+                       else 'ft-adjoint-is-inverse-not-adjoint',
+                       '%s(axes=%r, impl=%s).adjoint is the adjoint for the spaces\' inner products, shape %s sides %s'
+                       % (cls, axes, impl, shape, sides), snippet)
+
+
 def probes(rng, tier):
     C.setup_impl_path()
     out = []
     grid_probes(rng, tier, out)
+    wavelet_axes_adjoint_probes(rng, tier, out)
+    fourier_adjoint_probes(rng, tier, out)
     dft_probes(rng, tier, out)
     backend_probes(rng, tier, out)
     ft_probes(rng, tier, out)
